@@ -34,6 +34,19 @@ MC_WORLDS = ["mc_rzp", "mc_imp", "nested3"]
 F_NAV_1 = "rotated-daughter-setdir-on-shallower-surface"
 
 
+# Debugging knobs (mutation screening): VERIF_NAV_WORLDS=a,b restricts the replayed lattice worlds,
+# VERIF_NAV_SKIP=design,fixtures,lattice skips parts.  Evidence records what was skipped.
+def knob_worlds(files):
+    only = [x for x in os.environ.get("VERIF_NAV_WORLDS", "").split(",") if x]
+    if not only:
+        return files
+    return [f for f in files if os.path.splitext(os.path.basename(f))[0] in only]
+
+
+def skip(part):
+    return part in os.environ.get("VERIF_NAV_SKIP", "").split(",")
+
+
 # ------------------------------------------------------------------------------ worlds
 def make_worlds(ctx, nrandom, big=False):
     d = ctx.path("worlds")
@@ -49,6 +62,8 @@ def make_worlds(ctx, nrandom, big=False):
 # ------------------------------------------------------------------------------ design
 def design(ctx, worlds_by_name, with_guard=True):
     """Returns (states, transitions, per-world list).  Reports violations of the fixed model."""
+    if skip("design"):
+        return 0, 0, [{"skipped": "VERIF_NAV_SKIP"}], None
     jobs = []
     for name in MC_WORLDS:
         jobs.append(dict(module="LatticeNavMC", cfg="LatticeNavMC_fixed", workers=4,
@@ -90,25 +105,21 @@ def _run_vnav(args, timeout):
 
 
 def history(recs, lno):
-    """Operation sequence (list of records) leading to 1-based record number lno."""
+    """Operation sequence (list of records) leading to 1-based record number lno: a record applied
+    to stack level k follows the most recent earlier record stored at level k (field j)."""
     tgt = recs[lno - 1]
     out = [tgt]
-    need = tgt.get("k", 0)
     if tgt.get("e") == "Init":
         return out
+    need = tgt.get("k", 0)
     i = lno - 2
     while need >= 1 and i >= 0:
         r = recs[i]
         if r.get("j") == need and r.get("e") not in ("World", "Stats", "Close"):
+            out.append(r)
             if r["e"] == "Init":
-                out.append(r)
                 break
-            if r["j"] == r["k"]:          # linear walk: predecessor is simply the previous record
-                out.append(r)
-                need = r["k"]
-            else:
-                out.append(r)
-                need = r["k"]
+            need = r["k"]
         i -= 1
     return out[::-1]
 
@@ -153,6 +164,7 @@ def replay(ctx, files, mode, prefixes, explore_bound=0, maxcalls=400000, nwalks=
     name starts with one of `prefixes` through ctx.violation."""
     vlib.build(["vnav"])
     jobs = []
+    files = [] if skip("lattice") else knob_worlds(files)
     for wf in files:
         name = os.path.splitext(os.path.basename(wf))[0]
         if mode == "both":
@@ -309,7 +321,10 @@ def fixtures(ctx, prefixes, nrays, nwalks, nprobes, maxpar=8, nshards=6):
     """Straight rays + random protocol walks + safety probes on the bundled fixtures.
     nrays/nwalks/nprobes are TOTALS, spread over the fixtures.  Returns totals dict."""
     vlib.build(["vnav"])
-    fs = fixture_files()
+    fs = [] if skip("fixtures") else fixture_files()
+    only = [x for x in os.environ.get("VERIF_NAV_FIXTURES", "").split(",") if x]
+    if only:
+        fs = [f for f in fs if os.path.basename(f).replace(".org.json", "") in only]
     skipped = {}
     usable = []
     for f in fs:
@@ -324,7 +339,7 @@ def fixtures(ctx, prefixes, nrays, nwalks, nprobes, maxpar=8, nshards=6):
             skipped[os.path.basename(f)] = "degenerate input: unit '%s' has coincident duplicate surfaces %s" % dup
             continue
         usable.append(f)
-    n = len(usable)
+    n = max(1, len(usable))
     per = lambda tot: max(1, (tot + n - 1) // n)
     jobs = []
     for i, f in enumerate(usable):
@@ -375,7 +390,7 @@ def fixtures(ctx, prefixes, nrays, nwalks, nprobes, maxpar=8, nshards=6):
         for k, v in info["facts"].items():
             tot["facts"][k] = tot["facts"].get(k, 0) + v
     # shards: concatenated annotated traces, remember the record ranges
-    groups = vlib.shards(good, nshards)
+    groups = vlib.shards(good, nshards) if good else []
     tj, ranges = [], []
     for gi, g in enumerate(groups):
         path = ctx.path("fixtures_%02d.ndjson" % gi)
